@@ -205,6 +205,11 @@ theorem Rel.discFail {w a : World} (h : Rel w a) (ctx : StepCtx) : Rel w (a.disc
   · exact h
   · exact h.handleDisconnect
 
+theorem Rel.failStep {w a : World} (h : Rel w a) (ctx : StepCtx) (st : Outbound.Step) : Rel w (a.failStep ctx st) := by
+  rcases failStep_cases a ctx st with e | e <;> rw [e]
+  · exact h
+  · exact h.handleDisconnect
+
 theorem Rel.finishOp {w a : World} (h : Rel w a) (name : String) (op : Op) : Rel w (a.finishOp name op) :=
   Rel.finish (a := { a with handles := a.handles ++ [op] }) (h.of_eq rfl rfl rfl) _
 
